@@ -97,7 +97,7 @@ class CalendarRule(PluginResultIterator):
         byhour = process_list_of_ints(byhour)
         byminute = process_list_of_ints(byminute)
         bysecond = process_list_of_ints(bysecond)
-        byweekno = process_list_of_ints(bysecond)
+        byweekno = process_list_of_ints(byweekno)
 
         until = self._normalize_until(until)
 
